@@ -16,9 +16,10 @@ Inductive fq_serr :=
 | EInvalidSep (found : byte) (line : nat) (id : option (list byte))
 | EUnexpectedEnd (line : nat) (id : option (list byte)).
 
+(** an error item carries the coordinates of the offending group's first line *)
 Inductive fq_sitem :=
 | QRec (i : fq_item)
-| QErr (e : fq_serr).
+| QErr (e : fq_serr) (line byte_ : nat).
 
 (** cut one LF-terminated line off a text: (line, rest) *)
 Fixpoint cut_line (l : list byte) : option (list byte * list byte) :=
@@ -50,17 +51,17 @@ Fixpoint fq_spec (fuel : nat) (rest : list byte) (line byte_ : nat) : list fq_si
       match cut_line rest with
       | None => (* no LF left *)
           if forallb blank (pieces rest) then []
-          else [QErr (EUnexpectedEnd line None)]
+          else [QErr (EUnexpectedEnd line None) line byte_]
       | Some (h, r1) =>
           match cut_line r1 with
           | None =>
               if forallb blank (pieces rest) then []
-              else [QErr (EUnexpectedEnd (line + 1) (err_id h))]
+              else [QErr (EUnexpectedEnd (line + 1) (err_id h)) line byte_]
           | Some (s, r2) =>
               match cut_line r2 with
               | None =>
                   if forallb blank (pieces rest) then []
-                  else [QErr (EUnexpectedEnd (line + 2) (err_id h))]
+                  else [QErr (EUnexpectedEnd (line + 2) (err_id h)) line byte_]
               | Some (p, r3) =>
                   (* three terminated lines; the fourth ends at the next LF or at the end *)
                   let '(q, r4, last) :=
@@ -69,16 +70,16 @@ Fixpoint fq_spec (fuel : nat) (rest : list byte) (line byte_ : nat) : list fq_si
                     | None => (r3, [], true)
                     end in
                   let first := hd LF rest in      (* rest is non-empty here *)
-                  if negb (first =? AT) then [QErr (EInvalidStart first line)]
+                  if negb (first =? AT) then [QErr (EInvalidStart first line) line byte_]
                   else
                     let sepb := hd LF r2 in
-                    if negb (sepb =? PLUS) then [QErr (EInvalidSep sepb (line + 2) (err_id h))]
+                    if negb (sepb =? PLUS) then [QErr (EInvalidSep sepb (line + 2) (err_id h)) line byte_]
                     else if (length s =? length q) || (length (trim_cr s) =? length (trim_cr q)) then
                       QRec (mkFqItem (trim_cr (tl h)) (trim_cr s) (trim_cr q) line byte_)
                       :: (if last then []
                           else fq_spec f r4 (line + 4)
                                        (byte_ + length h + length s + length p + length q + 4))
-                    else [QErr (EUnequal (length (trim_cr s)) (length (trim_cr q)) line (err_id h))]
+                    else [QErr (EUnequal (length (trim_cr s)) (length (trim_cr q)) line (err_id h)) line byte_]
               end
           end
       end
